@@ -10,6 +10,13 @@ namespace GoNeat.Genesis
 
 variable {W : Type}
 
+theorem any_eq_isSome_find {α} (p : α → Bool) (l : List α) : l.any p = (l.find? p).isSome := by
+  induction l with
+  | nil => rfl
+  | cons a l ih =>
+    simp only [List.any_cons, List.find?_cons]
+    cases p a <;> simp [ih]
+
 /-! ### the first loop of `edgeBetween` -/
 
 theorem scanUV_spec (uid vid : Int) (l : List (NNodeS W)) :
